@@ -124,3 +124,21 @@ def run_runner(check_module, script, libroot, timeout=300, extra_path=(), env=No
             return json.load(fh), p.returncode, err
     finally:
         shutil.rmtree(sdir, ignore_errors=True)
+
+
+def build_and_generate(api, scratch, hashseed="0"):
+    """api: vlib.apigen.Api.  Returns (req, GenResult, libdir or None)."""
+    from vlib import apigen
+    req = api.request(scratch)
+    g = generate(req, hashseed=hashseed)
+    if not g.ok:
+        return req, g, None
+    lib = os.path.join(scratch, "lib")
+    materialise(g.response, lib)
+    if api.synth_deps:
+        apigen.write_synth_pb2(req, api.synth_deps, lib)
+    return req, g, lib
+
+
+def case_scratch(prefix):
+    return os.environ.get("VP_CASE_SCRATCH") or new_scratch(prefix)
